@@ -362,8 +362,8 @@ def classes_by_name():
 
 
 def add_bootstrappers(overlay):
-    """The two shipped bootstrapper classes.  The Dispersy one gets the addresses of the run's other nodes later (there is
-    no Internet); the UDP-broadcast one really opens its broadcast socket, only its 65535-port beacon is cut to 3 ports."""
+    """The two shipped bootstrapper classes.  The Dispersy one is pointed at a silent mock address (there is no Internet);
+    the UDP-broadcast one really opens its broadcast socket, only its 65535-port beacon is cut to 3 ports."""
     from ipv8.bootstrapping.dispersy.bootstrapper import DispersyBootstrapper
     from ipv8.bootstrapping.udpbroadcast.bootstrapper import UDPBroadcastBootstrapper
     d = DispersyBootstrapper(ip_addresses=[], dns_addresses=[], bootstrap_timeout=0.0)
@@ -383,7 +383,9 @@ def wire_bootstrappers(nodes):
         for ov in getattr(nd, "all_overlays", [nd.overlay]):
             for b in getattr(ov, "bootstrappers", []):
                 if hasattr(b, "ip_addresses"):
-                    b.ip_addresses = [UDPv4Address(*o.base.wan_address) for o in nodes if o is not nd]
+                    # a bootstrap server that never answers (bootstrap addresses are blacklisted as peers, so the run's
+                    # own nodes cannot play that role)
+                    b.ip_addresses = [UDPv4Address("10.99.99.99", 6421)]
 
 
 def companions_send(nodes):
